@@ -14,6 +14,10 @@
     State.VerifyTx for cases and mutated protobufs; real pre-images tokenised (v1/v2), the v3 grammar's
     pre-image hashed against the real digest / id; digest / id pairs for all structure pairs of a section.
     The reflection walk over the Transaction schema must equal the specification's field table (else exit 2).
+    Block ops: the transaction inside a peer block applied by State.Walk / State.PlayAndRepost, pool empty or holding
+    it, judged by the content in effect afterwards; incl. the family "the entry refers to a marked transaction (token
+    input / key input) x the block's height above / at / below the effective height of the mark x the entry passes /
+    fails ordinary verification" (the fall-back State.verifyMarked of verifyDAGTxs).
 (4) TLC validates the ndjson against Trace_TxAuth.tla: explained by IDEAL -> held; only with a deviation
     listed as known -> KNOWN-FINDING; else VIOLATION. Lines that only bind the grammar to the code (tok, ref)
     give exit 2 when they do not fit (the grammar no longer describes the encoder)."""
@@ -107,7 +111,7 @@ def judge(run, res, trace, kf_consts, known, ops_of):
     desc = "%s: specification allows %s, real code: %s; %s" % (what, json.dumps(div.get("exp")), json.dumps(div.get("act")),
                                                                json.dumps({k: v for k, v in ev.items() if k not in ("tr", "i")}, sort_keys=True)[:900])
     run.violation(desc, {"property": "C07", "driver": "c07 " + ops_of, "seed": run.seed, "tier": run.tier, "known_deviations_enabled": sorted(kf_consts),
-                         "program": [{k: v for k, v in ev.items() if k in ("op", "t", "m", "r", "hon", "v", "sec", "a", "b", "j", "pool", "via")}],
+                         "program": [{k: v for k, v in ev.items() if k in ("op", "t", "m", "r", "hon", "v", "sec", "a", "b", "j", "pool", "via", "mh")}],
                          "first_unexplained_event": ev, "expected": div.get("exp"), "actual": div.get("act")})
     return False
 
@@ -205,8 +209,8 @@ def check(run):
     others = [c for c in cases if not c.get("hon")]
     blks = []
 
-    def blk(t, m, pool, via):
-        blks.append({"op": "blk", "t": t, "m": m, "pool": pool, "via": via})
+    def blk(t, m, pool, via, mh="above"):
+        blks.append({"op": "blk", "t": t, "m": m, "pool": pool, "via": via, "mh": mh})
     for j, m in enumerate(only_muts):
         v = (j + run.seed) % 2
         if quick:
@@ -228,6 +232,28 @@ def check(run):
                     blk(c["t"], nomut, pool, via)
     for j, c in enumerate(rnd.sample(others, min(len(others), 800 if quick else 8000))):
         blk(c["t"], nomut, "base" if j % 5 == 0 else "none", vias[(j + run.seed) % 2])
+    # the family "the entry refers to a transaction the regulator marked" (spends one of its outputs): the block's
+    # height above / at / below the effective height of the mark x the entry passes / fails ordinary verification
+    # (owner not among the signers, corrupted / foreign / replayed signature, stale id) x Walk / PlayAndRepost, never
+    # seen by the node; and, for the entries the code accepts, beside the pool that holds them - unchanged, and with
+    # signature bytes, id field or content changed under the old / a recomputed id.
+    mhs, mkmuts = behs[0][0]["mhs"], behs[0][0]["mkmuts"]
+    if sorted(mhs) != ["above", "at", "below"] or len(mkmuts) < 4:
+        raise vp.Undecided("unexpected plans of the marked-transaction family in the generated files")
+    mk_acc = [c for c in cases if c.get("mk") and c.get("acc")]
+    mk_rej = [c for c in cases if c.get("mk") and not c.get("acc")]
+    n_before = len(blks)
+    for c in rnd.sample(mk_rej, min(len(mk_rej), 400 if quick else 4000)) + rnd.sample(mk_acc, min(len(mk_acc), 100 if quick else 400)):
+        for mh in mhs:
+            for via in vias:
+                blk(c["t"], nomut, "none", via, mh)
+    for c in rnd.sample(mk_acc, min(len(mk_acc), 36 if quick else 200)):
+        for mh in mhs:
+            for via in vias:
+                blk(c["t"], nomut, "base", via, mh)
+                for m in mkmuts:
+                    blk(c["t"], m, "base", via, mh)
+    run.cov["block_ops_marked_family"] = len(blks) - n_before
     run.cov["block_ops_enumerated"] = len(blks)
 
     # (3) + (4) cases, mutations and block ops on the real code, validated by TLC
@@ -309,6 +335,27 @@ def check(run):
         req["block_changed_entry_under_pooled_id_" + via] = (bb.get("changed_entry_under_pooled_id/" + via, 0), 250 if quick else 800)
     req["block_accepted_entry_in_effect"] = (sum(v for k, v in bb.items() if ":ok:e" in k), 500)
     req["block_refused_nothing_in_effect"] = (sum(v for k, v in bb.items() if ":rej:n" in k or ":rej:p" in k or ":rej:np" in k), 800)
+    # the marked-transaction family: every height x way, entries that fail ordinary verification and entries that pass
+    n_f, n_p, n_pool = (250, 60, 150) if quick else (500, 100, 300)
+    for mh in ("above", "at", "below"):
+        for via in ("walk", "play"):
+            for o, mn in (("fails", n_f), ("passes", n_p)):
+                req["block_marked_ref_%s_%s_%s" % (mh, via, o)] = (bb.get("mk/%s/%s/none/%s" % (mh, via, o), 0), mn)
+            req["block_marked_ref_%s_%s_pool_holds_it" % (mh, via)] = (sum(bb.get("mk/%s/%s/base/%s" % (mh, via, o), 0) for o in ("fails", "passes")), n_pool)
+            req["block_marked_ref_%s_%s_failing_refused_nothing_in_effect" % (mh, via)] = (
+                sum(v for k, v in bb.items() if k.startswith("mk/%s/%s/" % (mh, via)) and "/fails:rej:" in k and k.split(":")[2] in ("n", "p", "np")), n_f)
+            req["block_marked_ref_%s_%s_passing_in_effect" % (mh, via)] = (
+                sum(v for k, v in bb.items() if k.startswith("mk/%s/%s/" % (mh, via)) and "/passes:ok:" in k and "e" in k.split(":")[2]), n_p)
+    # ... by the kind of reference: a token input spending an output of the marked transaction / a key input naming the
+    # version it wrote (marked on the node's copy after the copy has read the key)
+    for ref, mn_f, mn_p in (("token", 150, 30), ("key", 100, 25)):
+        for mh in ("above", "at", "below"):
+            for via in ("walk", "play"):
+                req["block_marked_%s_ref_%s_%s_failing_refused" % (ref, mh, via)] = (bb.get("mkref/%s/%s/%s/fails:rej" % (ref, mh, via), 0), mn_f)
+                req["block_marked_%s_ref_%s_%s_passing_applied" % (ref, mh, via)] = (bb.get("mkref/%s/%s/%s/passes:ok" % (ref, mh, via), 0), mn_p)
+    for why, mn in (("fails/signatures-valid", 300), ("fails/stale-id", 300), ("fails/signature-junk-this", 60), ("fails/signature-kx-this", 60),
+                    ("fails/signature-bytes-changed", 60), ("fails/id-field-changed", 60), ("fails/field-changed:fixid", 60), ("fails/field-changed:none", 60)):
+        req["block_marked_ref_" + why.replace("/", "_")] = (bb.get("mkwhy/" + why, 0), mn)
     req["coinbase_blocks_played"] = (sum(v for k, v in stats.get("by_res", {}).items() if k.startswith("cb:")), 2)
     for f in ("address", "multi-address", "multi-account-uris", "account-initiator", "account-initiator+signers", "xsign0", "xsign1", "xsign2"):
         req["form_" + f] = (by.get(f, 0), n_form)
